@@ -148,6 +148,9 @@ def create_read_grouper(args, sample, chr_id):
         return ReadIdSplitReadGrouper(delim=values[1])
     elif values[0] == 'file':
         read_group_chr_filename = sample.read_group_file + "_" + chr_id
+        if not os.path.exists(read_group_chr_filename):
+            # no BAM header lists this sequence of the reference: there are no reads, hence no groups, on it
+            open(read_group_chr_filename, "w").close()
         return ReadTableGrouper(read_group_chr_filename, 0, 1, '\t')
     else:
         logger.critical("Unsupported read grouping option")
